@@ -139,6 +139,7 @@ class Env:
         self.inline_locals = inline_locals
         self.at = at  # optional: only inline definitions that textually precede this line
         self._busy = set()
+        self.state = None  # optional State: atoms assigned earlier in a straight-line block
 
 
 def _call_name(f):
@@ -195,6 +196,10 @@ def lin(e, env=None):
         if isinstance(e.value, bool) or not isinstance(e.value, (int, float)):
             raise NonAffine(f"non-numeric constant {e.value!r}")
         return Form(const=Fraction(str(e.value)))
+    if env.state is not None and isinstance(e, (ast.Name, ast.Attribute, ast.Subscript)):
+        k = _atom_text(e, env)
+        if k in env.state.vals:
+            return env.state.vals[k]
     if isinstance(e, ast.Name):
         if e.id in env.subst:
             s = env.subst[e.id]
@@ -331,8 +336,12 @@ class State:
 
 def lin_in(e, env, state):
     """lin() with atoms that were assigned earlier in the block replaced by their current forms."""
-    f = lin(e, env)
-    return subst_form(f, state.vals)
+    old = env.state
+    env.state = state
+    try:
+        return lin(e, env)
+    finally:
+        env.state = old
 
 
 def subst_form(f, vals):
